@@ -5,8 +5,8 @@ finfields.py `find_irreducible`, `xGF`).
 
 The irreducibility test is proved correct for EVERY prime p and EVERY polynomial (not only on a bounded
 domain): `isIrreducible p a = true ↔ Irreducible (toPoly p a)` (Mathlib's `Irreducible` on `(ZMod p)[X]`:
-not a unit and no factorisation into two non-units).  The searches are proved to return the least
-candidate; for odd p the candidate set excludes `X` itself (finding `C24-next-irreducible-skips-x`).
+not a unit and no factorisation into two non-units).  The searches are proved to terminate and to return the
+least monic irreducible polynomial above the argument (including `X`: `find_irreducible(p, 1) = X`).
 Small kernel-evaluated tables compare the test with exhaustive trial division inside the model.
 -/
 import MpycV.Lemmas.GFpXTerm
@@ -86,35 +86,48 @@ example : BinPoly.isIrreducible 283 = true ∧ BinPoly.isIrreducible 281 = false
 /-! ## 2. the search -/
 
 /-- ★ `next_irreducible(a)` (list class): whenever the loop returns, the result is well-formed, monic,
-irreducible, has integer value `> int(a)`, and is the least such polynomial in the integer order
-AMONG polynomials other than `X` -/
+irreducible, has integer value `> int(a)`, and is the least such polynomial in the integer order -/
 theorem next_irreducible_spec [Fact p.Prime] {f : ℕ} {a c : Poly}
     (h : nextIrreducible p f a = some c) :
-    WF p c ∧ (toPoly p c).Monic ∧ Irreducible (toPoly p c) ∧ toPoly p c ≠ X ∧
-      toInt p a < toInt p c ∧
-      ∀ d, WF p d → (toPoly p d).Monic → Irreducible (toPoly p d) → toPoly p d ≠ X →
+    WF p c ∧ (toPoly p c).Monic ∧ Irreducible (toPoly p c) ∧ toInt p a < toInt p c ∧
+      ∀ d, WF p d → (toPoly p d).Monic → Irreducible (toPoly p d) →
         toInt p a < toInt p d → toInt p c ≤ toInt p d := nextIrreducible_spec h
 
-example : nextIrreducible 3 20 [1, 0, 1] = some [2, 1, 1] := by decide
+example : nextIrreducible 3 20 [1, 0, 1] = some [2, 1, 1] ∧ nextIrreducible 3 10 [] = some [0, 1] := by
+  decide
 
-/-- ★ `find_irreducible(p, d)` (odd p): the least monic irreducible polynomial `≠ X` with integer value
-`≥ p^d` -/
+/-- ★ `find_irreducible(p, d)` (odd p): the least monic irreducible polynomial with integer value `≥ p^d` -/
 theorem find_irreducible_spec [Fact p.Prime] {d f : ℕ} {c : Poly}
     (h : findIrreducible p d f = some c) :
-    WF p c ∧ (toPoly p c).Monic ∧ Irreducible (toPoly p c) ∧ toPoly p c ≠ X ∧ p ^ d ≤ toInt p c ∧
-      ∀ e, WF p e → (toPoly p e).Monic → Irreducible (toPoly p e) → toPoly p e ≠ X →
+    WF p c ∧ (toPoly p c).Monic ∧ Irreducible (toPoly p c) ∧ p ^ d ≤ toInt p c ∧
+      ∀ e, WF p e → (toPoly p e).Monic → Irreducible (toPoly p e) →
         p ^ d ≤ toInt p e → toInt p c ≤ toInt p e := findIrreducible_spec h
 
 example : findIrreducible 3 2 20 = some [1, 0, 1] ∧ findIrreducible 5 3 100 = some [1, 1, 0, 1] := by
   decide
 
-/-- ★ `find_irreducible(p, d)` has degree exactly `d` (for `d ≥ 1`): its value has `d + 1` coefficients -/
+/-- ★ `find_irreducible(p, d)` has degree exactly `d` (for `d ≥ 1`): its value has `d + 1` coefficients;
+so it is the smallest monic irreducible polynomial of degree `d` -/
 theorem find_irreducible_degree [Fact p.Prime] {d f : ℕ} {c : Poly} (hd : 1 ≤ d)
     (h : findIrreducible p d f = some c) : c.length = d + 1 ∧ GFpX.degree c = (d : ℤ) := by
   have := findIrreducible_degree hd h
   exact ⟨this, by simp [GFpX.degree, this]⟩
 
 example : findIrreducible 7 2 100 = some [1, 0, 1] := by decide
+
+/-- ★ `find_irreducible(p, 1) = X` for every prime (the multiples of p are skipped EXCEPT p itself;
+before repo commit f8e05fb the loop skipped X too and returned X + 1) -/
+theorem find_irreducible_one [Fact p.Prime] {f : ℕ} {c : Poly} (h : findIrreducible p 1 f = some c) :
+    c = [0, 1] := findIrreducible_one h
+
+example : findIrreducible 3 1 10 = some [0, 1] ∧ BinPoly.findIrreducible 1 10 = some 2 := by decide
+
+/-- ★ the skip `if a % p == 0 and a != p` is sound: a multiple of p other than p itself is never monic
+irreducible (it is a proper multiple of X) -/
+theorem skipped_multiples_not_irreducible [Fact p.Prime] {m : ℕ} (h0 : m % p = 0) (hne : m ≠ p) :
+    ¬ ((digits p m).getLastD 0 = 1 ∧ isIrreducible p (digits p m) = true) := not_cand_of_dvd h0 hne
+
+example : isIrreducible 3 (digits 3 6) = false ∧ isIrreducible 3 (digits 3 3) = true := by decide
 
 /-- ★ the unbounded searches (`while True`) terminate: monic irreducible polynomials of every degree exist
 over `ZMod p`, so for every argument some number of loop passes suffices -/
@@ -123,21 +136,6 @@ theorem search_terminates [Fact p.Prime] (a : Poly) (d : ℕ) :
   ⟨nextIrreducible_terminates a, findIrreducible_terminates d⟩
 
 example : nextIrreducible 5 30 [4, 4, 4] = some [1, 1, 0, 1] := by decide
-
-/-- FINDING (key `C24-next-irreducible-skips-x`): for odd p the polynomial `X` — monic, irreducible,
-integer value p — is never returned, because the loop skips every multiple of p.  So
-`next_irreducible(0)` and `find_irreducible(p, 1)` return `X + 1` although `X` is smaller.
-General statement: -/
-theorem next_irreducible_never_X [Fact p.Prime] {f : ℕ} {a : Poly} :
-    nextIrreducible p f a ≠ some [0, 1] := by
-  intro h
-  exact (nextIrreducible_spec h).2.2.2.1 toPoly_X
-
-/-- …and the concrete witness for p = 3 (for p = 2 the bitmask code does return `X`, see below) -/
-theorem next_irreducible_skips_X_witness :
-    nextIrreducible 3 10 [] = some [1, 1] ∧ findIrreducible 3 1 10 = some [1, 1] ∧
-      isIrreducible 3 [0, 1] = true ∧ toInt 3 [0, 1] = 3 ∧ toInt 3 [1, 1] = 4 ∧
-      BinPoly.findIrreducible 1 10 = some 2 := by decide
 
 /-- ★ `next_irreducible` over GF(2) (bitmask class): the least irreducible polynomial above `a` in the
 integer order, without exception -/
